@@ -112,8 +112,9 @@ impl Add for LineWhitespace {
     type Output = LineWhitespace;
     fn add(self, rhs: Self) -> Self::Output {
         Self {
-            indentations: self.indentations + rhs.indentations,
-            continuations: self.continuations + rhs.continuations,
+            // (a line nested in tens of thousands of broken contexts: the counters stay at their maximum)
+            indentations: self.indentations.saturating_add(rhs.indentations),
+            continuations: self.continuations.saturating_add(rhs.continuations),
         }
     }
 }
